@@ -4,10 +4,13 @@ package backend
 
 import (
 	"fmt"
+	"syscall"
+
 	"io"
 	"net"
 	"sync"
 	"time"
+	"verif/harness/lab/procnet"
 )
 
 type Conn struct {
@@ -56,24 +59,22 @@ func (c *Conn) Write(p []byte) error {
 func (c *Conn) Close() { c.C.Close() }
 
 type Listener struct {
-	L     net.Listener
+	L     *net.TCPListener
 	Addr  string // host:port as listened on
 	mu    sync.Mutex
-	cond  *sync.Cond
 	conns []*Conn
-	done  bool
 }
 
 // Listen opens a listener on addr (e.g. "127.0.0.1:0", "[::1]:0", "127.0.0.7:3390").
+// There is no background accept loop: the kernel completes handshakes on its own, and the harness pulls
+// the accepted connections synchronously whenever it looks at the accept log, so that the log is exact at
+// the moment of observation.
 func Listen(addr string) (*Listener, error) {
 	l, err := net.Listen("tcp", addr)
 	if err != nil {
 		return nil, err
 	}
-	ls := &Listener{L: l, Addr: l.Addr().String()}
-	ls.cond = sync.NewCond(&ls.mu)
-	go ls.loop()
-	return ls, nil
+	return &Listener{L: l.(*net.TCPListener), Addr: l.Addr().String()}, nil
 }
 
 func MustListen(addr string) *Listener {
@@ -91,22 +92,19 @@ func MustListen(addr string) *Listener {
 
 func (l *Listener) Port() int { return l.L.Addr().(*net.TCPAddr).Port }
 
-func (l *Listener) loop() {
+// pull accepts every connection that is waiting in the kernel's accept queue.
+func (l *Listener) pull() {
+	l.mu.Lock()
+	defer l.mu.Unlock()
 	for {
+		l.L.SetDeadline(time.Now().Add(150 * time.Microsecond))
 		c, err := l.L.Accept()
 		if err != nil {
-			l.mu.Lock()
-			l.done = true
-			l.cond.Broadcast()
-			l.mu.Unlock()
 			return
 		}
 		bc := &Conn{C: c, At: time.Now()}
 		bc.cond = sync.NewCond(&bc.mu)
-		l.mu.Lock()
 		l.conns = append(l.conns, bc)
-		l.cond.Broadcast()
-		l.mu.Unlock()
 		go func() {
 			buf := make([]byte, 65536)
 			for {
@@ -132,9 +130,10 @@ func (l *Listener) loop() {
 }
 
 // Accepts returns the number of connections accepted so far.
-func (l *Listener) Accepts() int { l.mu.Lock(); defer l.mu.Unlock(); return len(l.conns) }
+func (l *Listener) Accepts() int { l.pull(); l.mu.Lock(); defer l.mu.Unlock(); return len(l.conns) }
 
 func (l *Listener) Conns() []*Conn {
+	l.pull()
 	l.mu.Lock()
 	defer l.mu.Unlock()
 	return append([]*Conn(nil), l.conns...)
@@ -143,25 +142,72 @@ func (l *Listener) Conns() []*Conn {
 // WaitAccept waits until at least n connections were accepted and returns the n-th.
 func (l *Listener) WaitAccept(n int, d time.Duration) *Conn {
 	deadline := time.Now().Add(d)
-	tm := time.AfterFunc(d, func() { l.mu.Lock(); l.cond.Broadcast(); l.mu.Unlock() })
-	defer tm.Stop()
-	l.mu.Lock()
-	defer l.mu.Unlock()
-	for len(l.conns) < n {
-		if !time.Now().Before(deadline) {
+	for {
+		l.pull()
+		l.mu.Lock()
+		if len(l.conns) >= n {
+			c := l.conns[n-1]
+			l.mu.Unlock()
+			return c
+		}
+		l.mu.Unlock()
+		if time.Now().After(deadline) {
 			return nil
 		}
-		l.cond.Wait()
+		time.Sleep(100 * time.Microsecond)
 	}
-	return l.conns[n-1]
 }
 
 // Close stops listening and closes every accepted connection.
 func (l *Listener) Close() {
-	l.L.Close()
 	for _, c := range l.Conns() {
 		c.C.Close()
 	}
+	l.L.Close()
+}
+
+// Settle waits until the connection has been quiet (nothing queued, nothing newly received) for a few polls or hit EOF.
+func (c *Conn) Settle() {
+	last, quiet := -1, 0
+	deadline := time.Now().Add(2 * time.Second)
+	for quiet < 3 && time.Now().Before(deadline) {
+		c.mu.Lock()
+		n, eof := len(c.rx), c.eof
+		c.mu.Unlock()
+		if eof {
+			return
+		}
+		if procnet.InQueue(c.C) == 0 && n == last {
+			quiet++
+		} else {
+			quiet = 0
+		}
+		last = n
+		time.Sleep(300 * time.Microsecond)
+	}
+}
+
+// CloseConns closes every accepted connection (keeps listening).
+func (l *Listener) CloseConns() {
+	for _, c := range l.Conns() {
+		c.C.Close()
+	}
+}
+
+// Reserve binds (without listening) a loopback port so that connections to it are refused and nobody
+// else gets it. The returned closer releases it.
+func Reserve(ip string) (port int, release func()) {
+	fd, err := syscall.Socket(syscall.AF_INET, syscall.SOCK_STREAM, 0)
+	if err != nil {
+		panic(err)
+	}
+	var a [4]byte
+	copy(a[:], net.ParseIP(ip).To4())
+	if err := syscall.Bind(fd, &syscall.SockaddrInet4{Addr: a}); err != nil {
+		panic(err)
+	}
+	sa, _ := syscall.Getsockname(fd)
+	return sa.(*syscall.SockaddrInet4).Port, func() { syscall.Close(fd) }
 }
 
 // ClosedPort returns a loopback port on ip on which nothing listens.
